@@ -13,7 +13,7 @@ CHECK = dict(
     units=[
         dict(name="inpkg", dir=D, src="C01/inpkg", runs=[
             dict(name="accept", run="^TestVerifC01Accept$", quick=10000, thorough=400000, shards_thorough=4),
-            dict(name="framing", run="^TestVerifC01Framing$", quick=4000, thorough=200000, shards_thorough=6),
+            dict(name="framing", run="^TestVerifC01Framing$", quick=4000, thorough=150000, shards_thorough=6),
             dict(name="shared-deadline", run="^TestVerifC01UDPSharedDeadline$", quick=300, thorough=3000),
             dict(name="fuzz", run="^FuzzVerifC01Accept$", quick=0, thorough=0, tier_only="thorough",
                  fuzz="^FuzzVerifC01Accept$", fuzztime="150s", timeout_thorough=600, env={"GOMAXPROCS": "4"}),
@@ -21,6 +21,7 @@ CHECK = dict(
         dict(name="sockets", dir=D, src="C01/sockets", runs=[
             dict(name="sockets", run="^TestVerifC01Sockets$", quick=400, thorough=15000, shards_quick=2, shards_thorough=6,
                  timeout_quick=300, timeout_thorough=1500),
+            dict(name="btd-read-buffer", run="^TestVerifC01BTDReadBuffer$", quick=0, thorough=0),
         ]),
     ],
 )
